@@ -11,6 +11,11 @@
 (*   widths : operand widths per opcode (Bytecode.SpecWidths, or the table *)
 (*            measured from the real encoder)                              *)
 (*   bnames : names of the builtin functions by index                      *)
+(*   opnames: names of the opcodes by number (Bytecode.OpNames is the      *)
+(*            design; conformance runs bind the names the real code uses,  *)
+(*            so that a renumbering of opcodes is not mistaken for a       *)
+(*            change of meaning); an opcode whose name this specification  *)
+(*            does not know makes the run unspecified                      *)
 (*                                                                         *)
 (* Machine state s:                                                        *)
 (*   frames : activation records [fn, cl, ip, bp]; cl = heap id of the     *)
@@ -69,7 +74,7 @@ PushRes(s0, x, ln) == IF IsErr(x) THEN Fail(s0, x.c, ln) ELSE IF IsUnspec(x) THE
 Running(s) == s.status = "run"
 
 \* -------------------------- arithmetic / relations --------------------------
-\* (instructions are dispatched on their names: OpNames[op + 1])
+\* (instructions are dispatched on their names: P.opnames[op + 1])
 BinName(nm) ==
   CASE nm = "Add" -> "+" [] nm = "Sub" -> "-" [] nm = "Mul" -> "*" [] nm = "Div" -> "/"
     [] nm = "Mod" -> "%" [] nm = "Greater" -> ">" [] nm = "GreaterEq" -> ">="
@@ -174,12 +179,12 @@ Step(P, s) ==
       ln == LineAt(P, s)
       W == P.widths
   IN
-  IF op >= NOps THEN Fail(s, "opcode", ln)
+  IF op >= Len(P.opnames) \/ op >= Len(W) THEN Fail(s, "opcode", ln)
   ELSE IF ip + InstrLen(W, op) > Len(code) THEN Stuck(s, "instruction runs past the end of the code")
   ELSE
   LET arg == Operands(W, code, ip)
       len == InstrLen(W, op)
-      nm == OpNames[op + 1]
+      nm == P.opnames[op + 1]
       next(t) == IF Running(t) THEN Advance(t, len) ELSE t
       bp == fr.bp
   IN
@@ -248,6 +253,7 @@ Step(P, s) ==
          IF fr.cl = 0 THEN Vagueness(s) ELSE next(Push(s, [k |-> "clos", id |-> fr.cl], ln))
     [] nm = "Dup" -> next(Push(s, IF s.sp = 0 THEN Null ELSE Top(s, 0), ln))
     [] nm \in {"GetProp", "SetProp", "Dollar"} -> Vagueness(s)    \* packets: Packet.tla
+    [] OTHER -> Vagueness(s)                                       \* an opcode this specification does not know
 
 Boot == [frames |-> <<[fn |-> 0, cl |-> 0, ip |-> 0, bp |-> 0]>>, stk |-> <<>>, sp |-> 0, glob |-> <<>>,
          st |-> EmptyStore, status |-> "run", err |-> [c |-> "", ln |-> 0]]
@@ -264,7 +270,7 @@ VMSpec == VMInit /\ [][VMNext]_vmvars
 \* positions at which an instruction of code starts, decoding linearly from 0
 InstrStarts(W, code) ==
   LET f(acc, i) == IF i # acc.nxt THEN acc
-                   ELSE IF code[i + 1] >= NOps THEN [nxt |-> Len(code) + 1, set |-> acc.set \cup {i}]
+                   ELSE IF code[i + 1] >= Len(W) THEN [nxt |-> Len(code) + 1, set |-> acc.set \cup {i}]
                    ELSE [nxt |-> i + InstrLen(W, code[i + 1]), set |-> acc.set \cup {i}]
   IN FoldLeft(f, [nxt |-> 0, set |-> {}], [i \in 1..Len(code) |-> i - 1]).set
 
